@@ -64,7 +64,7 @@ var deniedPkgs = map[string]bool{
 
 // packages whose init is skipped although their functions are interpreted.
 var skipInitPkgs = map[string]bool{
-	"errors": true, "context": true, "io": false, "unicode": false,
+	"errors": true, "context": false, "io": false, "unicode": false,
 }
 
 func pkgDenied(path string) bool {
